@@ -33,10 +33,74 @@ func TestZsimC04Rpc(t *testing.T) {
 		Run:      c04RpcRun,
 		Horizon:  24 * time.Hour,
 		MaxSteps: 400000,
-		Rule:     "histories of Authenticate calls with metadata variants (none, app only, empty values, right / wrong token, unknown app) interleaved with clock advances around the 5 minute cache window, changes of the stored token, and store faults (network cut, error replies), strict and non-strict; oracle = verdict follows the stored token, with the previous verdict tolerated inside the cache's 95%..105% (+-2s) expiry window; non-trivial = a store fault fired or the stored token changed; distinct = distinct event-log fingerprint",
+		Rule:     "histories of Authenticate calls with metadata variants (none, app only, empty values, right / wrong token, unknown app) interleaved with clock advances around the 5 minute cache window, changes of the stored token, and store faults (network cut, error replies), strict and non-strict; a quarter of the runs: 2-4 callers of one app arrive together on a cold cache behind a slow HGET and some of them are cancelled while it is in flight (the others must get the right verdict); oracle = verdict follows the stored token, with the previous verdict tolerated inside the cache's 95%..105% (+-2s) expiry window; non-trivial = a store fault fired or the stored token changed; distinct = distinct event-log fingerprint",
 		Real:     []string{"rpc/internal/auth.Authenticator", "lib/collection.Cache + TimingWheel", "lib/store/redis + breaker", "go-redis", "miniredis"},
 		Stub:     []string{"callers (metadata)", "network to the token store", "simulated clock"},
 	})
+}
+
+// c04RpcTogether: several callers of one app arrive together on a cold cache and share one slow lookup; some of
+// them give up (context cancelled) while it is in flight. A caller that did not give up gets the verdict the stored
+// token implies: another caller's cancellation is not a store failure.
+func c04RpcTogether(r *zsim.Run) {
+	o, f := r.Ops, r.Fault
+	srv := zredis.Start(r, "sim-auth:6379")
+	defer srv.Close()
+	redis.ZsimRegister(srv.Addr, srv.Client)
+	store := redis.New(srv.Addr)
+	strict := o.Intn(2) == 0
+	a, err := NewAuthenticator(store, "apps", strict)
+	if err != nil {
+		r.Failf("constructor", "%v", err)
+		return
+	}
+	srv.M.HSet("apps", "app1", "tok-1")
+	lookup := time.Duration(zsim.Pick(o, 20, 50, 200)) * time.Millisecond
+	srv.Stall = func(cmd string, args []string) time.Duration {
+		if cmd == "HGET" {
+			return lookup
+		}
+		return 0
+	}
+	n := 2 + o.Intn(3)
+	done := 0
+	r.Logf("rpc auth together strict=%v callers=%d lookup=%v", strict, n, lookup)
+	for c := 0; c < n; c++ {
+		c := c
+		token := zsim.Pick(o, "tok-1", "tok-1", "wrong")
+		var giveUp time.Duration = -1
+		if f.Intn(2) == 1 {
+			giveUp = time.Duration(f.Intn(int(lookup/time.Millisecond)+10)) * time.Millisecond
+		}
+		start := time.Duration(o.Intn(3)) * time.Millisecond
+		r.Go(fmt.Sprintf("caller%d", c), func() {
+			defer func() { done++ }()
+			zsim.Sleep(start)
+			ctx, cancel := context.WithCancel(metadata.NewIncomingContext(context.Background(), metadata.Pairs("app", "app1", "token", token)))
+			defer cancel()
+			if giveUp >= 0 {
+				r.FaultFired("caller-cancelled")
+				zsim.AfterFunc(giveUp, cancel)
+			}
+			err := a.Authenticate(ctx)
+			code := status.Code(err)
+			r.Logf("caller %d token=%s giveUp=%v -> %v (%v)", c, token, giveUp, code, err)
+			if giveUp >= 0 {
+				return // it no longer cares
+			}
+			want := codes.OK
+			if token != "tok-1" {
+				want = codes.Unauthenticated
+			}
+			if code != want {
+				r.Failf("wrong-verdict", "caller %d (token %q, stored \"tok-1\", store healthy, strict=%v) never gave up but got %v (%v), want %v: it shared the lookup of a caller that was cancelled", c, token, strict, code, err, want)
+			}
+		})
+	}
+	if !r.WaitFor(time.Minute, 10*time.Millisecond, func() bool { return done == n }) {
+		r.Failf("callers-blocked", "callers blocked: %v", r.Alive(false))
+	}
+	r.NonTrivial()
 }
 
 func c04RpcRun(r *zsim.Run) {
@@ -44,6 +108,10 @@ func c04RpcRun(r *zsim.Run) {
 	redis.ZsimResetClients()
 	r.RandMode = 2 // the store's breaker never rejects: store failures are the injected ones only
 	o, f := r.Ops, r.Fault
+	if o.Intn(4) == 0 {
+		c04RpcTogether(r)
+		return
+	}
 	srv := zredis.Start(r, "sim-auth:6379")
 	defer srv.Close()
 	redis.ZsimRegister(srv.Addr, srv.Client)
